@@ -176,16 +176,20 @@ fn tfc_flip_history(r: &mut Rng, prog: &crate::model::Program) -> Option<Vec<Ste
         }
         let sess = |ws: Vec<Write>| Step::Session { cells: vec![], writes: ws, commit: true };
         let ask = |n: crate::model::NodeId| Step::Query { roots: vec![n], mode: QMode::Seq };
-        let mut first = vec![Write::Set(0, a), Write::Set(1, u)];
+        // the leaf starts on the firewall branch (a) or off it (b: the queries above then
+        // have to *learn* about the firewall from a clean repair alone - seeded change C01-a)
+        // and always ends on it
+        let start_on = r.chance(1, 2);
+        let flips = if start_on { 2 * (1 + r.usize_below(2)) } else { 1 + 2 * r.usize_below(2) };
+        let mut on = start_on;
+        let mut first = vec![Write::Set(0, if on { a } else { b }), Write::Set(1, u)];
         if ins.contains(&2) {
             first.push(Write::Set(2, w));
         }
         let mut h = vec![sess(first), ask(top)];
-        // one or two round trips off and back onto the firewall branch
-        for _ in 0..1 + r.usize_below(2) {
-            h.push(sess(vec![Write::Set(0, b)]));
-            h.push(ask(top));
-            h.push(sess(vec![Write::Set(0, a)]));
+        for _ in 0..flips {
+            on = !on;
+            h.push(sess(vec![Write::Set(0, if on { a } else { b })]));
             h.push(ask(top));
         }
         h.push(sess(vec![Write::Set(1, u2)]));
@@ -460,21 +464,21 @@ pub fn worker(ctx: &WorkerCtx, prop: &str) -> Report {
             // own edge to Q*. Nothing wrong was handed out yet (the stale values were not asked for,
             // or happened to equal the right ones). In the next epoch Q is recomputed, its caller's
             // edge is clean, and the caller is stale for good. The repair therefore has to start in
-            // the epoch of the latent occurrence: it is moved back, one query-bearing epoch at a
-            // time and at most three, with the same narrowing as above (only below the queries
-            // executors read on a single-thread runtime).
+            // the epoch of the latent occurrence, with the same narrowing as above (only below the
+            // queries executors read on a single-thread runtime) ...
             if !matches!(&cf, Ok(c) if !c.oracle.c01_violated) && (first_is_user_value || first_is_executor_read) {
-                let mut f = from;
-                'back: for back in 1..=3u64 {
-                    let old = f;
-                    while f > 0 {
-                        f = epoch_start(&case.history, f - 1);
-                        if case.history[f..old].iter().any(|s| matches!(s, Step::Query { .. })) {
-                            break;
-                        }
-                    }
-                    if f == old {
-                        break;
+                // ... but only into epochs in which the oracle saw the finding's precondition: an
+                // executor read a query above a firewall that was out of date and had not been
+                // repaired before that executor started (`f1_precondition_epochs`). Without such an
+                // observation nothing is moved (seeded change C01-a: no executor reads above a
+                // stale firewall anywhere in the history - it stays a violation).
+                let session_steps: Vec<usize> = case.history.iter().enumerate().filter(|(_, s)| matches!(s, Step::Session { .. })).map(|(i, _)| i).collect();
+                let viol_epoch = session_steps.iter().filter(|i| **i <= out.oracle.first_c01_step.unwrap_or(0)).count() as u64;
+                let earlier: Vec<u64> = out.oracle.f1_precondition_epochs.iter().rev().copied().filter(|e| *e < viol_epoch && *e >= 1).take(3).collect();
+                'back: for (back, e) in earlier.iter().enumerate() {
+                    let Some(f) = session_steps.get(*e as usize - 1).copied() else { continue };
+                    if f >= from {
+                        continue;
                     }
                     for _ in 0..4 {
                         let only = if cfg.rt_workers > 0 { None } else { Some(targets.clone()) };
@@ -483,7 +487,7 @@ pub fn worker(ctx: &WorkerCtx, prop: &str) -> Report {
                         let mut grown = false;
                         if matches!(&c, Ok(c) if !c.oracle.c01_violated) {
                             rep.count("counterfactual_cleared_from_an_earlier_epoch_latent_occurrence", 1);
-                            rep.max("latent_occurrence_epochs_back", back);
+                            rep.max("latent_occurrence_candidates_tried", back as u64 + 1);
                             cf = c;
                             break 'back;
                         }
@@ -498,9 +502,6 @@ pub fn worker(ctx: &WorkerCtx, prop: &str) -> Report {
                         if !grown || cfg.rt_workers > 0 {
                             break;
                         }
-                    }
-                    if f == 0 {
-                        break;
                     }
                 }
             }
